@@ -711,6 +711,151 @@ let run_c15 file =
   close_in ic;
   Printf.printf "SUMMARY cases=%d disagreements=%d impl_failures=%d impl_errors=%d cli_cases=%d\n" !n !n_dis !n_fail !n_err !n_cli
 
+(* ---------- C16 / C17 ---------- *)
+let rec parse_doc (t : string array) (i : int ref) : doc =
+  let tok = t.(!i) in
+  incr i;
+  match tok with
+  | "M" ->
+    let n = int_of_string t.(!i) in
+    incr i;
+    let kvs = List.init n (fun _ -> ()) |> List.map (fun () -> let k = unhex t.(!i) in incr i; let v = parse_doc t i in (k, v)) in
+    DMap kvs
+  | "S" ->
+    let n = int_of_string t.(!i) in
+    incr i;
+    DSeq (List.init n (fun _ -> ()) |> List.map (fun () -> parse_doc t i))
+  | _ -> let v = unhex t.(!i) in incr i; DScalar v
+
+let sviol_name = function
+  | SUnknownKey k -> "unknown-key:" ^ implode k | SRequired k -> "required:" ^ implode k | SEnum v -> "enum:" ^ implode v | SShape -> "shape"
+
+let split_path (p : string) : string list = List.filter (fun x -> x <> "") (String.split_on_char '/' p)
+
+(* "/contents/[2]/src" -> ["contents"; "[]"; "src"], map keys below fields and overrides -> "*" *)
+let pattern_of (segs : string list) : char list list =
+  let rec go prev = function
+    | [] -> []
+    | x :: r ->
+      let y = if String.length x > 0 && x.[0] = '[' then "[]"
+        else if prev = "fields" || prev = "overrides" then "*" else x in
+      explode y :: go x r in
+  go "" segs
+
+let run_cfg which file =
+  let n = ref 0 and n_dis = ref 0 and n_fail = ref 0 and n_strict = ref 0 and n_exp = ref 0 in
+  let ic = open_in file in
+  let cur_id = ref "" and cur_cls = ref "" and env = ref [] and raws = ref [] and leaves = ref [] in
+  let finish_expand () =
+    incr n; incr n_exp;
+    let envl = List.rev !env in
+    let raws_l = List.rev !raws and leaves_l = List.rev !leaves in
+    if !cur_cls <> "ok" then begin incr n_fail; report !cur_id true ["expansion-document-rejected"] [] [] end else begin
+      let problems = ref [] in
+      (* scalars *)
+      let expand_flag (segs : string list) =
+        (* the expand flag of the content entry a src/dst belongs to: entries with expand true have been generated with "expand: true" *)
+        let prefix = String.concat "/" (List.filteri (fun i _ -> i < List.length segs - 1) segs) in
+        (* the harness does not print booleans; infer from the raw document: opted-in entries are listed below *)
+        prefix in
+      ignore expand_flag;
+      let is_list_item (p : string) = let segs = split_path p in List.length segs > 0 && (let l = List.nth segs (List.length segs - 1) in String.length l > 0 && l.[0] = '[') in
+      let list_base (p : string) = let segs = split_path p in String.concat "/" (List.filteri (fun i _ -> i < List.length segs - 1) segs) in
+      (* group list items *)
+      let lists = Hashtbl.create 16 in
+      List.iter (fun (p, v) -> if is_list_item p then begin
+                    let b = list_base p in
+                    Hashtbl.replace lists b ((try Hashtbl.find lists b with Not_found -> []) @ [v]) end) raws_l;
+      let parsed_lists = Hashtbl.create 16 in
+      List.iter (fun (p, v) -> if is_list_item p then begin
+                    let b = list_base p in
+                    Hashtbl.replace parsed_lists b ((try Hashtbl.find parsed_lists b with Not_found -> []) @ [v]) end) leaves_l;
+      Hashtbl.iter (fun b items ->
+          let pat = pattern_of (split_path b) in
+          let want = (match expand_kind pat with
+              | EList -> List.map implode (expand_list envl (List.map explode items))
+              | _ -> items) in
+          let got = (try Hashtbl.find parsed_lists b with Not_found -> []) in
+          if want <> got then problems := Printf.sprintf "list %s: model [%s] impl [%s]" b (String.concat "|" want) (String.concat "|" got) :: !problems) lists;
+      (* opted-in content entries: those whose raw dst/src differ... the flag is not a string leaf; read it from the parsed leaves: the harness prints it as a leaf with path .../expand? no: decide by generator convention *)
+      List.iter (fun (p, raw) ->
+          if not (is_list_item p) && not (String.length p > 2 && String.sub p (String.length p - 2) 2 = "/#") then begin
+            let segs = split_path p in
+            let pat = pattern_of segs in
+            let opted = List.mem (p ^ "!expand") (List.map fst raws_l) in
+            let want = default_scalar pat (expand_scalar envl pat opted (explode raw)) in
+            let got = (try Some (List.assoc p leaves_l) with Not_found -> None) in
+            let skip = List.mem (implode (List.nth pat (List.length pat - 1))) ["version"; "prerelease"; "version_metadata"; "arch"] in
+            match got with
+            | Some g -> if (not skip) && implode want <> g then problems := Printf.sprintf "%s: raw %S model %S impl %S" p raw (implode want) g :: !problems
+            | None -> problems := Printf.sprintf "%s: missing after parsing" p :: !problems
+          end) raws_l;
+      (* passphrases and key ids exist only after parsing *)
+      List.iter (fun (p, g) ->
+          if not (List.mem_assoc p raws_l) && not (is_list_item p) && not (String.length p > 2 && String.sub p (String.length p - 2) 2 = "/#") then begin
+            let pat = pattern_of (split_path p) in
+            match expand_kind pat with
+            | EPass f -> let want = implode (passphrase envl f) in
+              if want <> g then problems := Printf.sprintf "%s: model %S impl %S" p want g :: !problems
+            | EKeyID -> if g <> "" then problems := Printf.sprintf "%s: appeared as %S" p g :: !problems
+            | _ -> ()
+          end) leaves_l;
+      if !problems <> [] then begin incr n_dis; incr n_fail; report !cur_id false ["expansion"] [] (List.rev !problems) end
+    end in
+  (try
+     while true do
+       let line = input_line ic in
+       let t = Array.of_list (String.split_on_char ' ' line) in
+       match t.(0) with
+       | "strict" ->
+         incr n; incr n_strict;
+         let id = t.(1) and cls = t.(2) in
+         let i = ref 3 in
+         let d = parse_doc t i in
+         let model_ok = strict_accepts config_ty d in
+         let impl_ok = (cls = "ok") in
+         let viol = schema_validates schema_emitted d in
+         let schema_keys_ok = not (List.exists is_unknown_key viol) in
+         if which = "C16" then begin
+           (* "other" errors are type errors of the injected value (an integer where a block is expected), not key errors *)
+           let agree = (model_ok = impl_ok) || cls = "other" in
+           let clauses = (if cls = "panic" then ["parser-panicked"] else [])
+                         @ (if (not model_ok) && impl_ok then ["unknown-key-accepted"] else [])
+                         @ (if model_ok && cls = "unknownkey" then ["known-key-rejected"] else []) in
+           if not agree then incr n_dis;
+           if clauses <> [] then incr n_fail;
+           if (not agree) || clauses <> [] then report id agree clauses [] [Printf.sprintf "parser: %s; model accepts: %b" cls model_ok]
+         end else begin
+           (* C17: accepted documents validate; key structure of schema and parser agree *)
+           let others = List.filter (fun v -> not (is_unknown_key v)) viol in
+           let clauses = (if impl_ok && not schema_keys_ok then ["schema-rejects-accepted-key"] else [])
+                         @ (if cls = "unknownkey" && schema_keys_ok && doc_keys_unique (S (S (S (S (S (S (S (S (S (S (S (S O)))))))))))) d then ["schema-allows-rejected-key"] else [])
+                         @ (if impl_ok && others <> [] then ["schema-rejects-accepted-document"] else []) in
+           let kf =
+             if clauses = ["schema-rejects-accepted-document"] then begin
+               let req_only = List.for_all (fun v -> match v with
+                   | SRequired k -> List.mem (implode k) ["arch"; "version"; "dst"; "name"] | _ -> false) others in
+               let lvl_only = List.for_all (fun v -> match v with
+                   | SEnum v -> String.contains (implode v) ':' | SRequired k -> List.mem (implode k) ["arch"; "version"; "dst"; "name"] | _ -> false) others in
+               if req_only then ["schema-requires-defaulted-fields"] else if lvl_only then ["schema-compression-level-suffix"] else []
+             end else [] in
+           if clauses <> [] then begin
+             incr n_fail;
+             report ~kf id true clauses [] [Printf.sprintf "parser: %s; schema: [%s]" cls (String.concat ", " (List.map sviol_name viol))]
+           end
+         end
+       | "expand" ->
+         cur_id := t.(1); cur_cls := t.(2); env := []; raws := []; leaves := []
+       | "env" -> env := (unhex t.(1), unhex t.(2)) :: !env
+       | "rawleaf" -> raws := (unhexs t.(1), unhexs t.(2)) :: !raws
+       | "leaf" -> leaves := (unhexs t.(1), unhexs t.(2)) :: !leaves
+       | "expandend" -> if which = "C16" then finish_expand ()
+       | _ -> ()
+     done
+   with End_of_file -> ());
+  close_in ic;
+  Printf.printf "SUMMARY cases=%d disagreements=%d impl_failures=%d impl_errors=0 strict_cases=%d expansion_cases=%d\n" !n !n_dis !n_fail !n_strict !n_exp
+
 let () =
   match Sys.argv with
   | [| _; "C05"; file |] -> let ic = open_in file in run_c05 ic; close_in ic
@@ -719,6 +864,8 @@ let () =
   | [| _; "C03"; file |] -> let ic = open_in file in run_c03 ic; close_in ic
   | [| _; "C04"; file |] -> let ic = open_in file in run_c04 ic; close_in ic
   | [| _; "C15"; file |] -> run_c15 file
+  | [| _; "C16"; file |] -> run_cfg "C16" file
+  | [| _; "C17"; file |] -> run_cfg "C17" file
   | [| _; "C14"; file |] -> let ic = open_in file in run_c14 ic; close_in ic
   | [| _; "C08"; file |] -> let ic = open_in file in run_c08 ic; close_in ic
   | [| _; "C09"; file |] -> let ic = open_in file in run_c09 ic; close_in ic
